@@ -50,8 +50,11 @@ pub fn build(rec: &Value) -> Built {
     if creditdebit { cols.push(("Credit", "credit")); cols.push(("Debit", "debit")); } else { cols.push(("Amount", "amount")); }
     if with_balance { cols.push(("Balance", "balance")); }
     if has_conv { cols.push(("Rate", "rate")); cols.push(("Counter value", "secondary_amount")); cols.push(("Counter currency", "secondary_commodity")); }
+    let with_charge = cfg["charge"] == "column";
+    if with_charge { cols.push(("Fees & Comm", "charge")); }
     cols.push(("Memo", "note"));
     let mut yaml = format!("path: stmt.csv\nencoding: UTF-8\naccount: \"Assets:Src\"\naccount_type: {}\n", cfg["atype"].as_str().unwrap());
+    if with_charge { yaml.push_str("operator: The Bank\n"); }
     match conv {
         "none" => yaml.push_str("commodity: USD\n"),
         "disabled" => yaml.push_str("commodity:\n  primary: USD\n  conversion:\n    disabled: true\n"),
@@ -103,6 +106,9 @@ pub fn build(rec: &Value) -> Built {
                 None => { cells.push(String::new()); cells.push(String::new()); cells.push(String::new()); }
             }
         }
+        if with_charge {
+            cells.push(match dec_opt(&row["chg"]) { Some(c) => bank_number(c), None => String::new() });
+        }
         cells.push(row["note"].as_str().unwrap().to_string());
         csv.push_str(&cells.iter().map(|c| cell(c, delim)).collect::<Vec<_>>().join(&delim.to_string()));
         csv.push('\n');
@@ -145,6 +151,16 @@ pub fn compare_tree(got: &[Value], rec: &Value, viols: &mut Vec<Value>) {
         for (i, (a, b)) in gp.iter().zip(wp.iter()).enumerate() {
             let want_amt = dec_opt(&b["amt"]).unwrap();
             let is_src = b["account"] == "Assets:Src";
+            if b["account"] == "Expenses:Commissions" {
+                if a["account"] != "Expenses:Commissions" {
+                    viols.push(viol("charge_posting", format!("transaction {} posting {}: account {}, the charge posting (Expenses:Commissions) comes between the account and the counter posting", k + 1, i + 1, a["account"])));
+                    break;
+                }
+                let payee_ok = a["metadata"].as_array().map(|ms| ms.iter().any(|m| m["k"] == "kv" && m["key"] == "Payee" && m["value"].to_string().contains(b["payee"].as_str().unwrap()))).unwrap_or(false);
+                if !payee_ok {
+                    viols.push(viol("charge_payee", format!("transaction {} posting {}: the charge posting does not name the operator {} as its payee: {}", k + 1, i + 1, b["payee"], a["metadata"])));
+                }
+            }
             if (a["account"] == "Assets:Src") != is_src {
                 viols.push(viol("posting_order", format!("transaction {} posting {}: account {}, by the sign of the amount the {} posting comes here", k + 1, i + 1, a["account"], if is_src { "account" } else { "counter" })));
                 break;
